@@ -88,15 +88,15 @@ fn stage(i: &Input, c: &mut Case) -> Result<(), String> {
 
 // ---- offsets far into a stream ---------------------------------------------------------------------------------------------------
 
-const FAR_BLOB: u64 = 4 << 20;
-const FAR_HEAD: u64 = 12;
-const FAR_PERIOD: u64 = 8 + 6 + 5 + FAR_BLOB;
+pub const FAR_BLOB: u64 = 4 << 20;
+pub const FAR_HEAD: u64 = 12;
+pub const FAR_PERIOD: u64 = 8 + 6 + 5 + FAR_BLOB;
 
 /// A synthesized stream (nothing of it is stored): Body with unknown size, then `n` times Group { Stamp = k, Blob = 4 MiB of zeroes }.
-struct FarSource {
-    pos: u64,
-    total: u64,
-    max_read: usize,
+pub struct FarSource {
+    pub pos: u64,
+    pub total: u64,
+    pub max_read: usize,
 }
 
 fn far_header(k: u64) -> [u8; 19] {
